@@ -230,6 +230,9 @@ def finish(ctx: Ctx, res: Result, t0: float) -> int:
     for k, what in sorted(seen_known.items()):
         print(f"KNOWN-FINDING: property={ctx.prop} {k}: {known[k]}")
     rc = 0
+    kf = os.path.join(REPLAY_DIR, f"{ctx.prop}-keys.json")
+    if not new and os.path.exists(kf):
+        os.unlink(kf)
     if new:
         os.makedirs(REPLAY_DIR, exist_ok=True)
         with open(os.path.join(REPLAY_DIR, f"{ctx.prop}-keys.json"), "w") as f:
